@@ -14,8 +14,9 @@ MCSlots3 == {S1, S2, S3}
 MCBackends == {"b1", "b2"}
 
 MCTablesAll == [Slots -> MCBackends \cup {""}]
-\* one fixed table for the per-call universe: host-less -> b1, h1 -> b2
-MCTablesFixed == {[s \in Slots |-> IF s.host = "" THEN "b1" ELSE "b2"]}
+\* one fixed table for the per-call universe: host-less service route -> b1, h1 -> b2, and (with three
+\* slots) the more specific host-less method route -> b2
+MCTablesFixed == {[s \in Slots |-> IF s.host = "" /\ Len(s.path) = 1 THEN "b1" ELSE "b2"]}
 
 PathOf(kind) ==
     CASE kind = "unary"   -> Svc \o <<"UnaryCall">>
